@@ -59,7 +59,8 @@ INJECT_CRATE = {
 }
 GUARD = "any(kani, owlchess_verif_replay)"
 # harness files that use items of harness files of OTHER modules
-HARNESS_FILE_DEPS = {"moves_san_harness_d.rs": ["textutil.rs"], "moves_san_harness_b.rs": ["textutil.rs"], "board_harness_d.rs": ["textutil.rs"], "board_harness_b.rs": ["zobrist_harness_b.rs", "zobrist_harness.rs"], "board_harness_c.rs": ["zobrist_harness_b.rs", "zobrist_harness.rs"]}
+HARNESS_FILE_DEPS = {"moves_san_harness_d.rs": ["textutil.rs"], "moves_san_harness_b.rs": ["textutil.rs"], "board_harness_d.rs": ["textutil.rs"], "board_harness_b.rs": ["zobrist_harness_b.rs", "zobrist_harness.rs"], "board_harness_c.rs": ["zobrist_harness_b.rs", "zobrist_harness.rs"],
+                     "movegen_harness_c.rs": ["legal_harness_b.rs", "legal_harness.rs"]}
 
 
 def log(*a):
